@@ -2206,5 +2206,12 @@ def normalise_module(modname, tree):
         split_versions(fn, known)
         substitute_aliases(fn, known)
         substitute_new_locals(fn, known)
+        # a display that was bound to a local first is a display only now
+        if any(isinstance(x, (ast.DictComp, ast.ListComp)) and isinstance(
+            x.generators[0].iter, (ast.Tuple, ast.List))
+               for x in ast.walk(fn)):
+          _ExpandLiteralComps({it for it, _ in inv[q].get('comps') or []}
+                              ).visit(fn)
+          ast.fix_missing_locations(fn)
   ast.fix_missing_locations(tree)
   return tree
